@@ -17,6 +17,7 @@ import (
 	"testing"
 	"time"
 
+	"github.com/dadrus/heimdall/internal/config"
 	"github.com/dadrus/heimdall/internal/verifsim/bubble"
 	"github.com/dadrus/heimdall/internal/verifsim/simcore"
 	"github.com/dadrus/heimdall/internal/verifsim/simkeys"
@@ -59,6 +60,7 @@ type c11Scenario struct {
 	usesExtra2 bool  // X-Extra2 reaches the party
 	viaOutputs bool  // the extra client header reaches the party only through .Outputs of an earlier (uncached) step
 	variation  string // name of the drawn variation of the basic configuration ("" = none)
+	signed     bool   // requests to the party carry an RFC 9421 signature (differs per request)
 	jwks       []byte // jwt-authn: the key set the identity provider publishes
 	cleanup    func()
 }
@@ -76,7 +78,7 @@ func c11Digest(req *http.Request, body []byte) string {
 	var names []string
 	for k := range req.Header {
 		lk := strings.ToLower(k)
-		if strings.HasPrefix(lk, "x-") || lk == "authorization" || lk == "cookie" {
+		if strings.HasPrefix(lk, "x-") || lk == "authorization" || lk == "cookie" { // (Signature / Signature-Input differ per request by design)
 			names = append(names, k)
 		}
 	}
@@ -306,6 +308,16 @@ func c11Build(s *simcore.Source) c11Scenario {
 			httpCacheYAML = "          http_cache:\n            enabled: true\n            default_ttl: 5m\n"
 			mechTTL = simcore.Pick(s, []string{"5m", "0s"}, "mech-ttl")
 			sc.describe += "http-cache(mech-ttl=" + mechTTL + ") "
+			switch s.Draw(3, "endpoint-auth") {
+			case 1:
+				httpCacheYAML += "          auth:\n            type: api_key\n            config:\n              in: header\n              name: X-Api-Key\n              value: k\n"
+				sc.describe += "auth=api_key "
+			case 2:
+				// signs every request anew (creation time, nonce)
+				// (the loader knows this strategy, the JSON schema of the configuration does not: it is added after loading)
+				sc.describe += "auth=http_message_signatures "
+				sc.signed = true
+			}
 			sc.variation = "http-cache"
 		}
 		common := fmt.Sprintf(`        endpoint:
@@ -569,6 +581,22 @@ func c11Sim(r *simcore.Run) {
 			defer sc.cleanup()
 		}
 		c11CurJWKS = sc.jwks
+		envMutate = nil
+		if sc.signed {
+			envMutate = func(c *config.Configuration) {
+				auth := map[string]any{"type": "http_message_signatures", "config": map[string]any{
+					"signer":     map[string]any{"name": "heimdall", "key_store": map[string]any{"path": simkeys.FixturePath("ec256")}},
+					"components": []any{"@method", "@target-uri"}, "ttl": "1m"}}
+				for _, list := range [][]config.Mechanism{c.Prototypes.Authorizers, c.Prototypes.Contextualizers} {
+					for _, m := range list {
+						if ep, ok := m.Config["endpoint"].(map[string]any); ok && m.ID == "mut" {
+							ep["auth"] = auth
+						}
+					}
+				}
+			}
+			defer func() { envMutate = nil }()
+		}
 		c11IssuerJWKS = map[string][]byte{
 			"ab": simkeys.JWKSJSON(jose.JSONWebKey{Key: c11JWTKey.Public(), KeyID: "c", Algorithm: string(simkeys.AlgFor(c11JWTKey)), Use: "sig"}),
 			"a":  simkeys.JWKSJSON(jose.JSONWebKey{Key: c11JWTKey2.Public(), KeyID: "bc", Algorithm: string(simkeys.AlgFor(c11JWTKey2)), Use: "sig"}),
